@@ -249,6 +249,27 @@ class ProcScheduler(S.Scheduler):
             self.step_hook(a)
 
 
+    def kill_worker(self, w: Worker) -> None:
+        """SIGKILL a worker process: no handler of its actors runs, the kernel closes its descriptors (and with them drops
+        whatever lock one of its handles held).  Its actors end as killed; everybody waiting for a lock looks again."""
+        pid = w.pid
+        w.process.kill()
+        w.process.join(10)
+        entry = {"actor": None, "pid": pid, "handle": None, "prim": "kill", "fd": None, "ok": True, "known": True}
+        self.locklog.append(entry)
+        for n, ww in self.remote.items():
+            if ww is w:
+                a = self.actors[n]
+                if a.state != "done":
+                    self.log.append({"actor": n, "op": "ProcessKilled", "path": "", "phase": (), "clock": self.clock_ms, "result": None})
+                    a.state = "done"
+                    a.pending = None
+                    a.error = RemoteError("ProcessKilled", f"process {pid} was killed")
+        for a in self.actors.values():
+            if a.state == "blocked":
+                a.state = "parked"
+
+
 def groups_of(case: Dict[str, Any]) -> List[List[int]]:
     n = len(case["ops"])
     procs = [list(g) for g in (case.get("procs") or [list(range(n))])]
@@ -262,8 +283,10 @@ def proc_of(case: Dict[str, Any]) -> Dict[str, int]:
 
 
 def run_case(scratch: str, case: Dict[str, Any], chooser_factory: Callable[[S.Scheduler], Callable], pool: Pool,
-             tag: str = "p") -> P.CaseResult:
-    """protocol.run_case for the local backend with the actors placed in processes (case['procs'])."""
+             tag: str = "p", kill: Optional[Dict[str, Any]] = None) -> P.CaseResult:
+    """protocol.run_case for the local backend with the actors placed in processes (case['procs']).
+    kill = {"actor": name, "when": pred(op, path)}: that actor is run until it is parked before an operation matching
+    `when`; then its (worker) process is killed, and the schedule goes on with the others."""
     import datashard
     from datashard.data_structures import Schema
     from datashard.storage_backend import LocalStorageBackend
@@ -337,8 +360,24 @@ def run_case(scratch: str, case: Dict[str, Any], chooser_factory: Callable[[S.Sc
                     sc.clock_ms += 1
             sc.step_hook = hook
             chooser = chooser_factory(sc)
+            killed = [kill is None]
 
             def recording(enabled: List[str], s: S.Scheduler) -> Optional[str]:
+                if not killed[0]:
+                    ka = kill["actor"]                      # type: ignore[index]
+                    if ka in enabled:
+                        op, path = s.actors[ka].pending or ("", "")
+                        if not kill["when"](op, path):      # type: ignore[index]
+                            res.enabled_at.append(list(enabled))
+                            return ka
+                        w = sc.remote[ka]
+                        sc.kill_worker(w)
+                        started.remove(w)
+                        pool.discard(w)
+                        enabled = s.enabled()
+                    killed[0] = True
+                    if not enabled:
+                        return None
                 res.enabled_at.append(list(enabled))
                 return chooser(enabled, s)
             try:
